@@ -2,8 +2,8 @@
    Notation: (A, add, neg, zero) is an arbitrary commutative group ([group_laws]); GO is the
    dictionary of group operations the code performs on G (projective) and B (affine bases),
    tied to the group by an interpretation (den, denB) ([gops_hom]); smul k P = k.P by iteration. *)
-From V Require Import Base.Word C05.MsmModel C05.StreamModel C05.GroupProofs C05.DigitsProofs
-  C05.MsmProofs C05.StreamProofs C05.ChunksProofs C05.Final.
+From V Require Import Base.Field Base.Word Base.ZpField C05.MsmModel C05.StreamModel C05.GroupProofs C05.DigitsProofs
+  C05.MsmProofs C05.StreamProofs C05.ChunksProofs C05.Final C05.GtModel C05.GtProofs.
 
 (* make_digits: for every limb count, every window width 1..62 and every bit length covered by the
    limbs, no out-of-bounds read; exactly ceil(num_bits/w) digits; sum d_i 2^(w i) = k; every
@@ -179,4 +179,62 @@ Example C05_msm_example :
    map (fun size => cp_run z_gops (msm_bigint z_gops true 5) size [(3, [11]); (5, [0]); (7, [31])]) [0; 1; 2; 4],
    map (fun size => hm_run z_gops (msm_bigint z_gops true 7) Z.eqb 97 1 size [(3, 50); (5, 5); (3, 40); (5, 2)]) [0; 1; 2; 3])
   = (Ok 250, Ok 250, Err 2, [Ok 250; Ok 250; Ok 250; Ok 250], [Ok 305; Ok 305; Ok 305; Ok 305]).
+Proof. vm_compute; reflexivity. Qed.
+
+(* ---------- the pairing target group (PairingOutput<P>) as an instance ----------
+   B = the field below the quadratic top level of the target field (Fp6 for Fp12 = Fp6[w]/(w^2 - v),
+   Fp2 for Fp4 = Fp2[v]/(v^2 - u)); only its commutative-ring laws and a correct equality test are used.
+   Carrier [gt_sub B nr] = { x : B[w]/(w^2 - nr) | x * conj x = 1 } (norm-one elements: contains the
+   cyclotomic subgroup and so every pairing output; there `cyclotomic_inverse` = conjugation IS the inverse).
+   With product / conjugation / 1 it is a commutative group and the dictionary of PairingOutput's operations
+   (zero = 1, += = product, -= = product with the conjugate, double = square) is homomorphic on it
+   (interpretation = identity): the two premises of every C05_msm_* / accumulator theorem hold. *)
+Theorem C05_gt_group_laws : forall (T : Type) (B : Fops T) (nr : T)
+  (R : ring_theory (f0 B) (f1 B) (fadd B) (fmul B) (fsub B) (fneg B) eq)
+  (E : forall x y : T, feqb B x y = true <-> x = y),
+  group_laws (gt_mul B nr R E) (gt_inv B nr R E) (gt_one B nr R E) /\
+  gops_hom (gt_sub_gops B nr R E) (gt_mul B nr R E) (gt_inv B nr R E) (gt_one B nr R E)
+           (fun x => x) (fun x => x).
+Proof. exact (fun T B nr R E => conj (gt_group_laws B nr R E) (gt_gops_hom B nr R E)). Qed.
+
+(* that dictionary is the restriction of the EXECUTED dictionary [gt_gops B nr] (coq/C05/Run.v) to the carrier *)
+Theorem C05_gt_gops_restrict : forall (T : Type) (B : Fops T) (nr : T)
+  (R : ring_theory (f0 B) (f1 B) (fadd B) (fmul B) (fsub B) (fneg B) eq)
+  (E : forall x y : T, feqb B x y = true <-> x = y),
+  gt_val B nr (gzero (gt_sub_gops B nr R E)) = gzero (gt_gops B nr) /\
+  (forall x y, gt_val B nr (gadd (gt_sub_gops B nr R E) x y) = gadd (gt_gops B nr) (gt_val B nr x) (gt_val B nr y)) /\
+  (forall x b, gt_val B nr (gmadd (gt_sub_gops B nr R E) x b) = gmadd (gt_gops B nr) (gt_val B nr x) (gt_val B nr b)) /\
+  (forall x b, gt_val B nr (gmsub (gt_sub_gops B nr R E) x b) = gmsub (gt_gops B nr) (gt_val B nr x) (gt_val B nr b)) /\
+  (forall x, gt_val B nr (gdbl (gt_sub_gops B nr R E) x) = gdbl (gt_gops B nr) (gt_val B nr x)).
+Proof. exact (@gt_gops_restrict). Qed.
+
+(* C05_msm_bigint_spec at this instance, read in the field: the result is the product of the powers
+   base_i ^ k_i (smul over (product, conj, 1) = exponentiation by iteration) *)
+Theorem C05_gt_msm_bigint_spec : forall (T : Type) (B : Fops T) (nr : T)
+  (R : ring_theory (f0 B) (f1 B) (fadd B) (fmul B) (fsub B) (fneg B) eq)
+  (E : forall x y : T, feqb B x y = true <-> x = y)
+  (cheap : bool) (nb : Z) (bases : list (gt_sub B nr)) (scalars : list (list Z)),
+  1 <= nb -> Z.min (len bases) (len scalars) < 2 ^ 64 ->
+  Forall (fun s => wf s /\ nb <= 64 * len s /\ val s < 2 ^ nb) scalars ->
+  exists g, msm_bigint (gt_sub_gops B nr R E) cheap nb bases scalars = Ok g /\
+            gt_val B nr g =
+            msum (fmul (QuadOps B nr)) (f1 (QuadOps B nr))
+                 (map (fun p => smul (fmul (QuadOps B nr)) (gt_conj B) (f1 (QuadOps B nr)) (val (fst p)) (gt_val B nr (snd p)))
+                      (combine scalars bases)).
+Proof. exact (@gt_msm_bigint_spec). Qed.
+
+(* the hypotheses are satisfiable: B = Z/7 (Base/ZpField.v), Q = F_7[i], the norm-one element (2 + 2i) ... *)
+Example C05_gt_hyp_ring : ring_theory (f0 (FpOps 7)) (f1 (FpOps 7)) (fadd (FpOps 7)) (fmul (FpOps 7))
+                                      (fsub (FpOps 7)) (fneg (FpOps 7)) eq.
+Proof. exact (FpOps_ring 7). Qed.
+Example C05_gt_hyp_eqb : forall x y : Fp 7, feqb (FpOps 7) x y = true <-> x = y.
+Proof. exact (FpOps_eqb 7). Qed.
+Example C05_gt_member : gt_ok (FpOps 7) (fp_of 7 6) (fp_of 7 2, fp_of 7 2) = true.
+Proof. vm_compute; reflexivity. Qed.
+(* ... and the executed dictionary on Z/7[i]: (2+2i)^3 * (2-2i)^1 * 1^5 by both bucket methods = (2+2i)^2 = i *)
+Example C05_gt_msm_example :
+  (msm_bigint_wnaf (gt_gops (ZpOps 7) 6) 3 [(2, 2); (2, 5); (1, 0)] [[3]; [1]; [5]],
+   msm_bigint_plain (gt_gops (ZpOps 7) 6) 3 [(2, 2); (2, 5); (1, 0)] [[3]; [1]; [5]],
+   msm_checked (gt_gops (ZpOps 7) 6) true 3 1 [(1, 0); (2, 2)] [5; 2])
+  = (Ok (0, 1), Ok (0, 1), Ok (0, 1)).
 Proof. vm_compute; reflexivity. Qed.
